@@ -78,12 +78,90 @@ fn thread_name() -> String {
     std::thread::current().name().unwrap_or("").to_string()
 }
 
+/// Commit probe (C08 "commit applies the final write per key all at once"): while armed, every
+/// `batch.drawn` is counted and at every `batch.unlocked` (the committing thread has just published and
+/// released the journal lock) a fresh snapshot must already show every expected final value.
+pub struct CommitProbe {
+    pub db: fjall::Database,
+    pub expect: Vec<(fjall::Keyspace, Vec<u8>, Option<Vec<u8>>)>,
+    pub thread: String,
+    pub drawn: u64,
+    pub unlocked: u64,
+    pub problems: Vec<String>,
+}
+pub static COMMIT_PROBE: Mutex<Option<CommitProbe>> = Mutex::new(None);
+static COMMIT_PROBE_ON: AtomicBool = AtomicBool::new(false);
+
+pub fn commit_probe_begin(db: fjall::Database, expect: Vec<(fjall::Keyspace, Vec<u8>, Option<Vec<u8>>)>) {
+    if let Ok(mut g) = COMMIT_PROBE.lock() {
+        *g = Some(CommitProbe {
+            db,
+            expect,
+            thread: thread_name(),
+            drawn: 0,
+            unlocked: 0,
+            problems: Vec::new(),
+        });
+    }
+    COMMIT_PROBE_ON.store(true, Ordering::SeqCst);
+}
+
+/// Returns (seqnos drawn, unlock points, problems) and disarms the probe.
+pub fn commit_probe_end() -> (u64, u64, Vec<String>) {
+    COMMIT_PROBE_ON.store(false, Ordering::SeqCst);
+    match COMMIT_PROBE.lock().ok().and_then(|mut g| g.take()) {
+        Some(p) => (p.drawn, p.unlocked, p.problems),
+        None => (0, 0, Vec::new()),
+    }
+}
+
+fn commit_probe_point(name: &'static str, arg: u64) {
+    if name != "batch.drawn" && name != "batch.unlocked" {
+        return;
+    }
+    let Ok(mut g) = COMMIT_PROBE.lock() else { return };
+    let Some(p) = g.as_mut() else { return };
+    if p.thread != thread_name() {
+        return;
+    }
+    if name == "batch.drawn" {
+        p.drawn += 1;
+        return;
+    }
+    p.unlocked += 1;
+    use fjall::Readable;
+    let snap = p.db.snapshot();
+    let mut bad = Vec::new();
+    for (ks, key, exp) in &p.expect {
+        match snap.get(ks, key) {
+            Ok(v) => {
+                if v.as_deref() != exp.as_deref() {
+                    bad.push(format!(
+                        "key {} of keyspace {}: a snapshot opened when the committing thread released the journal lock (batch seqno {arg}) shows {:?}, the transaction's final write is {:?}",
+                        crate::util::show(key),
+                        ks.name(),
+                        v.as_deref().map(crate::util::show),
+                        exp.as_deref().map(crate::util::show)
+                    ));
+                }
+            }
+            Err(e) => bad.push(format!("snapshot read failed: {e:?}")),
+        }
+    }
+    if p.problems.len() < 4 {
+        p.problems.extend(bad.into_iter().take(2));
+    }
+}
+
 /// When set (trace children), every entry into a journal critical section past the poison check
 /// (`*.drawn`) is written into the syscall trace as a marker `H drawn`.
 pub static MARK_DRAWN: AtomicBool = AtomicBool::new(false);
 pub static DRAWN_DELAY_US: AtomicU64 = AtomicU64::new(0);
 
 fn handler(name: &'static str, arg: u64) {
+    if COMMIT_PROBE_ON.load(Ordering::Relaxed) {
+        commit_probe_point(name, arg);
+    }
     if MARK_DRAWN.load(Ordering::Relaxed) && (name == "write.drawn" || name == "batch.drawn") {
         crate::engine_trace::write_mark("H drawn\n");
         // hold the journal lock a little longer so that other clients queue up at the lock (whatever they
